@@ -78,10 +78,10 @@ Proof.
   cbn.
   destruct (sch HStatTarget); cbn; try solve [old_tac].
   destruct (sch OStat); cbn; try solve [old_tac].
-  destruct (sch HChmodTemp); cbn; try solve [old_tac].
-  destruct (sch OChmod); cbn; try solve [old_tac].
   destruct (sch HChownTemp); cbn; try solve [old_tac].
-  destruct (sch OChown); cbn; try solve [old_tac];
+  all: destruct (sch OChown); cbn; try solve [old_tac].
+  all: destruct (sch HChmodTemp); cbn; try solve [old_tac].
+  all: destruct (sch OChmod); cbn; try solve [old_tac];
     (split; [unfold PreS; split; [old_tac | split; reflexivity] | reflexivity]).
 Qed.
 
